@@ -144,7 +144,21 @@ func NewRoundRobinDecoder(dec ...Decoder) Decoder {
 // NewDecoder returns a new gob Decoder for the given io.Reader.
 func NewDecoder(rd io.Reader) Decoder {
 	dec := gob.NewDecoder(rd)
-	return func(r *Result) error { return dec.Decode(r) }
+	return func(r *Result) error {
+		// gob pre-sizes a nil map with the element count found in the stream
+		// before it reads any element, so a corrupted count makes it allocate
+		// gigabytes for a tiny input. Decoding into an existing map only
+		// grows it with the elements that are actually there.
+		if r.Headers != nil {
+			return dec.Decode(r)
+		}
+		r.Headers = http.Header{}
+		err := dec.Decode(r)
+		if len(r.Headers) == 0 {
+			r.Headers = nil
+		}
+		return err
+	}
 }
 
 // Decode is an an adapter method calling the Decoder function itself with the
